@@ -23,10 +23,13 @@ pub struct DocProfile {
     pub id_pool: usize,
     /// adds a bulk array so that packs exceed the 32 KiB blocks of the compression wrappers
     pub big: bool,
+    /// some array elements are pure character objects {"_id": .., "#": "<hex code>"} (the library stores
+    /// nothing for them: their digest is the code itself)
+    pub charcode: bool,
 }
 impl Default for DocProfile {
     fn default() -> Self {
-        DocProfile { hostile_strings: true, hostile_ids: true, kind_change: true, nested: true, id_pool: 10, big: false }
+        DocProfile { hostile_strings: true, hostile_ids: true, kind_change: true, nested: true, id_pool: 10, big: false, charcode: false }
     }
 }
 
@@ -127,6 +130,11 @@ fn fresh_id(r: &mut Rng, p: &DocProfile, used: &mut BTreeSet<String>, allow_bang
 pub fn rand_elem(r: &mut Rng, p: &DocProfile, id: &str, used: &mut BTreeSet<String>, depth: usize) -> Value {
     let mut m = Map::new();
     m.insert("_id".into(), json!(id));
+    if p.charcode && r.chance(30) {
+        let codes = ["68", "1f600", "e9", "0", "7fffffff", "a"];
+        m.insert("#".into(), json!(*r.pick(&codes)));
+        return Value::Object(m);
+    }
     for i in 0..r.below(3) {
         m.insert(format!("f{}", i), rand_value(r, p, 2));
     }
@@ -358,6 +366,10 @@ pub fn mutate_doc(r: &mut Rng, p: &DocProfile, prev: &Value) -> Value {
                             if !a.is_empty() {
                                 let pos = r.below(a.len());
                                 if let Some(ob) = a[pos].as_object_mut() {
+                                    if ob.contains_key("#") {
+                                        // a character object stays pure: its digest is the code alone
+                                        continue;
+                                    }
                                     let k = format!("f{}", r.below(3));
                                     if r.chance(20) {
                                         ob.remove(&k);
